@@ -23,22 +23,22 @@ import (
 
 type quiet struct{}
 
-func (quiet) Level(syslog.Lv) syslog.Logger     { return quiet{} }
-func (quiet) Pref(any) syslog.Logger            { return quiet{} }
-func (quiet) Trace(...any)                      {}
-func (quiet) Tracef(string, ...any)             {}
-func (quiet) Debug(...any)                      {}
-func (quiet) Debugf(string, ...any)             {}
-func (quiet) Info(...any)                       {}
-func (quiet) Infof(string, ...any)              {}
-func (quiet) Warn(...any)                       {}
-func (quiet) Warnf(string, ...any)              {}
-func (quiet) Error(...any)                      {}
-func (quiet) Errorf(string, ...any)             {}
-func (quiet) Panic(v ...any)                    { panic(fmt.Sprint(v...)) }
-func (quiet) Panicf(format string, v ...any)    { panic(fmt.Sprintf(format, v...)) }
-func (quiet) Fatal(v ...any)                    { panic("FATAL: " + fmt.Sprint(v...)) }
-func (quiet) Fatalf(format string, v ...any)    { panic("FATAL: " + fmt.Sprintf(format, v...)) }
+func (quiet) Level(syslog.Lv) syslog.Logger  { return quiet{} }
+func (quiet) Pref(any) syslog.Logger         { return quiet{} }
+func (quiet) Trace(...any)                   {}
+func (quiet) Tracef(string, ...any)          {}
+func (quiet) Debug(...any)                   {}
+func (quiet) Debugf(string, ...any)          {}
+func (quiet) Info(...any)                    {}
+func (quiet) Infof(string, ...any)           {}
+func (quiet) Warn(...any)                    {}
+func (quiet) Warnf(string, ...any)           {}
+func (quiet) Error(...any)                   {}
+func (quiet) Errorf(string, ...any)          {}
+func (quiet) Panic(v ...any)                 { panic(fmt.Sprint(v...)) }
+func (quiet) Panicf(format string, v ...any) { panic(fmt.Sprintf(format, v...)) }
+func (quiet) Fatal(v ...any)                 { panic("FATAL: " + fmt.Sprint(v...)) }
+func (quiet) Fatalf(format string, v ...any) { panic("FATAL: " + fmt.Sprintf(format, v...)) }
 
 // Silence installs the discard logger. Must run before the first syslog.Pref
 // call because the prefix cache freezes whatever logger was current.
